@@ -285,6 +285,13 @@ func genC17(rec *lib.Rec, r *lib.Rng, thorough bool) {
 			}
 			res := rec.Op("S", "read equalin "+segsStr(Encode(r, pair(c1, c2), 2+r.Intn(3), r.Intn(8), r.Intn(8), r.Bool())), true)
 			rec.Count("in-message-caps " + res)
+			{
+				// the decision itself against Model.EqualCap: tables of 0..8 entries, null entries, clients named twice
+				bx := func(c int) *Val { return &Val{Kind: vStruct, Ptrs: []*Val{{Kind: vCap, Cap: uint32(c)}}} }
+				ntab := r.Pick(0, 1, 4, 8, r.Intn(9))
+				rec.Op("M", "read equalcap "+segsStr(Encode(r, pair(bx(r.Intn(10)), bx(r.Intn(10))), 1+r.Intn(3), r.Intn(8), 0, r.Bool()))+" "+
+					strconv.Itoa(ntab)+" "+strconv.Itoa(r.Pick(0, 0, r.Intn(256)))+" "+strconv.Itoa(r.Pick(8, 8, 1, 2, 3)), true)
+			}
 			box := func(c int) *Val { return &Val{Kind: vStruct, Ptrs: []*Val{{Kind: vCap, Cap: uint32(c)}}} }
 			rec.Op("S", "read equalin "+segsStr(Encode(r, pair(box(r.Intn(11)), box(8+r.Intn(3))), 3, 0, 0, r.Bool())), true)
 		}
